@@ -75,21 +75,15 @@ fn check_e1102_multiple_pickups_deliveries_demand(ctx: &ValidationContext) -> Re
 
 /// Checks that job's time windows are correct.
 fn check_e1103_time_window_correctness(ctx: &ValidationContext) -> Result<(), FormatError> {
-    let has_invalid_tws = |tasks: &Option<Vec<JobTask>>| {
-        tasks.as_ref().is_some_and(|tasks| {
-            tasks
-                .iter()
-                .flat_map(|task| task.places.iter())
-                .filter_map(|place| place.times.as_ref())
-                .any(|tws| !check_raw_time_windows(tws, false))
-        })
+    let has_invalid_tws = |tasks: Vec<&JobTask>| {
+        tasks
+            .iter()
+            .flat_map(|task| task.places.iter())
+            .filter_map(|place| place.times.as_ref())
+            .any(|tws| !check_raw_time_windows(tws, false))
     };
 
-    let ids = ctx
-        .jobs()
-        .filter(|job| has_invalid_tws(&job.pickups) || has_invalid_tws(&job.deliveries))
-        .map(|job| job.id.clone())
-        .collect::<Vec<_>>();
+    let ids = ctx.jobs().filter(|job| has_invalid_tws(ctx.tasks(job))).map(|job| job.id.clone()).collect::<Vec<_>>();
 
     if ids.is_empty() {
         Ok(())
